@@ -302,6 +302,15 @@ func (w *World) mint(k *Case) (tok string, ok bool) {
 			} else if i := strings.Index(m.S, "="); i > 0 {
 				cl[m.S[:i]] = m.S[i+1:]
 			}
+		case "sans":
+			switch m.S {
+			case "del":
+				delete(cl, "sans")
+			case "ip":
+				cl["sans"] = []string{sub, "10.1.0.7"}
+			default:
+				cl["sans"] = []string{sub, m.S}
+			}
 		case "step":
 			switch m.S {
 			case "del":
@@ -486,6 +495,9 @@ func genMut(r *c.Rng, w *World, p *Prov, k *Case) Mut {
 		return Mut{K: "claim", S: c.Pick(r, []string{"azp=client-abc", "azp=other", "azp=jwk2:" + w.minter("jwk2").Kid, "tid=client-abc", "tid=t", "email=admin@example.com",
 			"email=ADMIN@EXAMPLE.COM", "email=x@evil.test", "email=", "azp=acme/acme"}), I: 0}
 	case 17:
+		if r.Chance(1, 3) {
+			return Mut{K: "sans", S: c.Pick(r, []string{"del", "ip", "evil.example.com", "10.9.9.9"})}
+		}
 		return Mut{K: "step", S: c.Pick(r, []string{"del", "badtype", "add", "empty", "host-ip", "host-evil"})}
 	case 18:
 		if p.Ty == "x5c" {
@@ -580,6 +592,13 @@ func corner(worlds []*World) []*Case {
 		for _, v := range []string{"otherroot", "caleaf", "selfsigned", "nodigsig", "serverauth", "expiredleaf"} {
 			for _, op := range []string{"sign", "sshsign", "revoke"} {
 				out = append(out, &Case{W: wi, M: "x5c", TokOp: op, Op: op, Muts: []Mut{{K: "x5c", S: v}}})
+			}
+		}
+		for _, v := range []string{"del", "ip", "evil.example.com", "10.9.9.9"} {
+			for _, m := range []string{"nebula", "jwk", "x5c"} {
+				for _, op := range []string{"sign", "revoke"} {
+					out = append(out, &Case{W: wi, M: m, TokOp: op, Op: op, Muts: []Mut{{K: "sans", S: v}}})
+				}
 			}
 		}
 		for _, v := range []string{"add", "badtype", "host-ip", "host-evil", "empty"} {
